@@ -219,7 +219,8 @@ theorem iter_cont (E : Enc σ) (cap : Nat) (r r' : Reader σ) (h : r.WF) (hi : R
               refine ⟨r1, _, rfl, rfl, s1, ?_, by simpa using hok, by simpa using hfin, k1, k2, k3, k4, k5, k6, k7, k8, k9⟩
               exact List.eq_nil_of_length_eq_zero (by simpa using hp)
 
-theorem iter_cont_measure (E : Enc σ) (rank : σ → Nat) (hp : EncProgress E rank) (cap : Nat) (hcap : 0 < cap)
+theorem iter_cont_measure (E : Enc σ) (ops : Op → Prop) (rank : σ → Nat) (hp : EncProgress E ops rank)
+    (hops : ops .process ∧ ops .finish) (cap : Nat) (hcap : 0 < cap)
     (r r' : Reader σ) (h : r.WF) (hi : Reader.iter E cap r = .cont r') :
     r'.WF ∧ (r'.todo < r.todo ∨ (r'.todo = r.todo ∧ r'.eofFlag < r.eofFlag) ∨
       (r'.todo = r.todo ∧ r'.eofFlag = r.eofFlag ∧ rank r'.enc < rank r.enc)) := by
@@ -244,13 +245,15 @@ theorem iter_cont_measure (E : Enc σ) (rank : σ → Nat) (hp : EncProgress E r
     have hdem : Demanded E st.1 r1.nextOp r1.window := by
       unfold Reader.nextOp
       split
-      · exact Or.inr (Or.inl ⟨rfl, s4⟩)
+      · next hz0 =>
+        refine Or.inr (Or.inl ⟨rfl, ?_, s4⟩)
+        exact List.eq_nil_of_length_eq_zero (by rw [hwl]; exact hz0)
       · next hne =>
         refine Or.inl ⟨rfl, ?_⟩
         intro hnil; rw [hnil] at hwl; simp at hwl; omega
     have hlt : rank r'.enc < rank r.enc := by
       rw [k3, ← f4, hst]
-      apply hp.stall r1.enc r1.nextOp r1.window cap hcap
+      apply hp.stall r1.enc r1.nextOp r1.window cap (by unfold Reader.nextOp; split; exact hops.2; exact hops.1) hcap
       · rw [← hst]; exact s3
       · rw [← hst]; exact hc
       · rw [← hst]; exact hdem
@@ -262,7 +265,8 @@ theorem iter_cont_measure (E : Enc σ) (rank : σ → Nat) (hp : EncProgress E r
     have : st.2.consumed ≤ r1.todo := by simp only [Reader.todo]; omega
     omega
 
-theorem readLoop_terminates (E : Enc σ) (rank : σ → Nat) (hp : EncProgress E rank) (cap : Nat) (hcap : 0 < cap) :
+theorem readLoop_terminates (E : Enc σ) (ops : Op → Prop) (rank : σ → Nat) (hp : EncProgress E ops rank)
+    (hops : ops .process ∧ ops .finish) (cap : Nat) (hcap : 0 < cap) :
     ∀ (T F R : Nat) (r : Reader σ), r.WF → r.todo = T → r.eofFlag = F → rank r.enc = R →
       ∃ N, ∀ fuel, N ≤ fuel → (Reader.readLoop E cap fuel r).2 ≠ .livelock := by
   intro T
@@ -299,7 +303,7 @@ theorem readLoop_terminates (E : Enc σ) (rank : σ → Nat) (hp : EncProgress E
                     · simp at hi; rw [← hi.2]; simp
                     · simp at hi
         | cont r' =>
-          obtain ⟨wf', hm⟩ := iter_cont_measure E rank hp cap hcap r r' hwf hi
+          obtain ⟨wf', hm⟩ := iter_cont_measure E ops rank hp hops cap hcap r r' hwf hi
           have hnext : ∃ N, ∀ fuel, N ≤ fuel → (Reader.readLoop E cap fuel r').2 ≠ .livelock := by
             rcases hm with h1 | ⟨h1, h2⟩ | ⟨h1, h2, h3⟩
             · exact ihT r'.todo (by omega) r'.eofFlag (rank r'.enc) r' wf' rfl rfl rfl
